@@ -224,6 +224,26 @@ CmpModel(op, sh, pat, use, c) ==
        [] use = "or"   -> Model(pat, <<>>, <<O2(20, B, O2(23, V(2), N(0)))>>, <<SumObj>>)
        [] use = "impl" -> Model(pat, <<>>, <<O3(72, O2(28, V(2), N(1)), B, N(1))>>, <<SumObj>>)
 
+\* products whose factors are functional expressions, with either sign of the coefficient: the quadratic term
+\* c * F * G sits in a constraint or objective, and which half of F's definition (F <= f(x) or F >= f(x)) the
+\* reformulation must keep depends on the sign of c, on the signs of the factors and on the sense of the use
+ProdInner == {"max2", "min2", "abs", "if", "count", "numberofc", "absdiff", "maxabs", "min3"}
+ProdOther == {"x2", "negx2", "absx2", "same"}
+ProdExpr(f, g, c) ==
+  LET F == NumExpr(f, "vars")
+      G == CASE g = "x2" -> V(2) [] g = "negx2" -> O1(16, V(2)) [] g = "absx2" -> O1(15, V(2)) [] g = "same" -> F
+      P == O2(2, F, G)
+  IN CASE c = 1 -> P [] c = -1 -> O1(16, P) [] OTHER -> O2(2, N(c), P)
+ProdModel(f, g, pat0, use0, k0) ==
+  LET c == IF k0 < 0 THEN (IF k0 = -1 THEN -1 ELSE -2) ELSE 1
+      E == ProdExpr(f, g, c)
+      r == 2 * k0
+  IN CASE use0 = "con_le" -> Model(pat0, <<Con("-inf", r, E)>>, <<>>, <<SumObj>>)
+       [] use0 = "con_ge" -> Model(pat0, <<Con(r, "inf", E)>>, <<>>, <<SumObj>>)
+       [] use0 = "con_eq" -> Model(pat0, <<Con(r, r, E)>>, <<>>, <<>>)
+       [] use0 = "objmin" -> Model(pat0, <<LinCon(1, "inf", << <<0, 1>>, <<1, 1>> >>)>>, <<>>, <<Obj(FALSE, E)>>)
+       [] use0 = "objmax" -> Model(pat0, <<LinCon("-inf", 3, << <<0, 1>>, <<2, 1>> >>)>>, <<>>, <<Obj(TRUE, E)>>)
+
 VARIABLES kind, op, sh, pat, use, k
 vars == <<kind, op, sh, pat, use, k>>
 
@@ -237,6 +257,7 @@ Init ==
      \/ (kind = "sos" /\ op \in {"sos1", "sos2"} /\ sh = "vars" /\ use = "sos" /\ k \in {0, 1, 2})
      \/ (kind = "cmp" /\ op \in CmpOps /\ sh \in {"vars", "affine", "mixed"} /\ use \in {"iff", "or", "impl"} /\ k \in -5..5)
      \/ (kind = "cone" /\ op \in ConeOps /\ sh = "vars" /\ use \in {"con", "con2"} /\ k \in {0, 1})
+     \/ (kind = "prod" /\ op \in ProdInner /\ sh \in ProdOther /\ use \in {"con_le", "con_ge", "con_eq", "objmin", "objmax"} /\ k \in {-2, -1, 1, 2})
      \/ (kind = "nest" /\ op \in NestOuter /\ sh \in NestInner /\ use \in {"con_le", "con_ge", "objmin", "lcon_lt", "shared", "inor"} /\ k \in {0, 1})
 Next == UNCHANGED vars
 
@@ -257,5 +278,6 @@ TheModel == CASE kind = "num" -> NumModel(op, sh, pat, use, k)
               [] kind = "nest" -> NestModel(op, sh, pat, use, k)
               [] kind = "cone" -> ConeModel(op, pat, use, k)
               [] kind = "cmp" -> CmpModel(op, sh, pat, use, k)
+              [] kind = "prod" -> ProdModel(op, sh, pat, use, k)
 Emit == PrintT(<<"CASE", ToJson([kind |-> kind, op |-> op, sh |-> sh, pat |-> pat, use |-> use, k |-> k, m |-> TheModel])>>)
 =============================================================================
